@@ -40,22 +40,10 @@
 -/
 import JdModel
 import JdSpec
-import JdProofs.LcsProofs
 import JdProofs.EqualsList
-import JdProofs.NoPanic
 import JdProofs.StrictPatch
-import JdProofs.SetPatch
-import JdProofs.YamlProofs
 import JdProofs.MergeProofs
-import JdProofs.EqualsSet
-import JdProofs.DiffEmpty
-import JdProofs.DiffPatchList
-import JdProofs.Common
-import JdProofs.PatchRender
 import JdProofs.NativeRoundTrip
-import JdProofs.CliProofs
-import JdProofs.SourceTables
-import JdProofs.DiffMinimal
 
 namespace Jd.MapOrder
 open Jd
